@@ -1,23 +1,82 @@
 import WaVerif.Model.C05
+import WaVerif.Lemmas.C05
+import WaVerif.Lemmas.C05Func
+import WaVerif.Lemmas.C05Wf
+/-!
+# C05 — property theorems (WAT printer output grammar)
+
+Every `theorem` in this file is an obligation of the check and is axiom-audited.
+The model (`Model/C05.lean`) is the INTENDED output grammar of `internal/wat/printer` over tokens that
+carry their values, with flat instruction lists; what the theorems do not cover (instruction nesting,
+the character level, the real scanner/parser) is decided per input by the oracle in checks/c05.py.
+-/
 namespace WaVerif.C05
 
-mutual
-theorem unflat_flatten : ∀ (e : SExp) ts cur stk, unflat (flatten e ++ ts) cur stk = unflat ts (e :: cur) stk
-  | .atom a, ts, cur, stk => by simp [flatten, unflat]
-  | .list l, ts, cur, stk => by
-    simp only [flatten, List.cons_append, List.append_assoc, unflat]
-    rw [unflat_flattenL l]
-    simp [unflat]
-theorem unflat_flattenL : ∀ (es : List SExp) ts cur stk, unflat (flattenL es ++ ts) cur stk = unflat ts (es.reverse ++ cur) stk
-  | [], ts, cur, stk => by simp [flattenL]
-  | e :: es, ts, cur, stk => by
-    simp only [flattenL, List.append_assoc]
-    rw [unflat_flatten e, unflat_flattenL es]
-    simp
-end
-
+/-- token layer: the parenthesis structure of a printed tree is recovered exactly -/
 theorem unflatten_flatten (e : SExp) : unflatten (flatten e) = some [e] := by
   have := unflat_flatten e [] [] []
   simpa [unflatten, unflat] using this
+
+/-- Parsing the printed tokens of a well-formed module gives the module back: the output grammar
+is unambiguous (field kinds are told apart by their head keyword, optional names by the `$` token
+class, a function's header from its body by the first mnemonic, an instruction's operands by the
+next mnemonic). -/
+theorem parse_print (m : Module) (h : m.WF) : parse (print m) = some m := by
+  simp [parse, print, unflatten_flatten, Module.ofS_toS m h]
+
+/-- printing is idempotent through the parser -/
+theorem print_idempotent (m : Module) (h : m.WF) :
+    ∀ m', parse (print m) = some m' → print m' = print m := by
+  intro m' hm
+  rw [parse_print m h] at hm
+  cases hm
+  rfl
+
+/-- whatever the parser accepts is well formed … -/
+theorem parse_wellformed (ts : List Tok) (m : Module) (h : parse ts = some m) : m.WF :=
+  parse_wf ts m h
+
+/-- … hence for EVERY token stream the parser accepts (not only printer output), printing the parsed
+module and parsing again is the identity: `parse ∘ print ∘ parse = parse`, and so
+`print ∘ parse ∘ print ∘ parse = print ∘ parse` (idempotence of formatting). -/
+theorem print_parse_fixpoint (ts : List Tok) (m : Module) (h : parse ts = some m) :
+    parse (print m) = some m :=
+  parse_print m (parse_wf ts m h)
+
+/-- the hypotheses are satisfiable by a module that uses every field kind -/
+def sampleModule : Module :=
+  { name := some "m"
+    imports := [.func [101] [102] (.name "log") ⟨[.i32], []⟩, .global [101] [103] (.name "gi") .i64,
+                .memory [101] [109] none 1 (some 2)]
+    exports := [⟨[103], .func, .name "g"⟩, ⟨[109], .memory, .num 0⟩]
+    memory := none
+    table := some ⟨some "tab", 2, none⟩
+    types := [⟨some "t", ⟨[.i32], [.i32]⟩⟩]
+    globals := [⟨some "x", true, .f32, .flt 32 1069547520⟩, ⟨none, false, .i64, .int (-5)⟩]
+    funcs := [⟨"g", some [120], [⟨some "a", .i32⟩, ⟨none, .i64⟩], [.i32], [⟨some "t", .f64⟩],
+               [⟨"block", [A (.id "out"), L [K "result", K "i32"]]⟩, ⟨"local.get", [A (.id "a")]⟩,
+                ⟨"i32.load", [K "offset", K "=", A (.int 8)]⟩, ⟨"call_indirect", [L [K "type", A (.id "t")]]⟩,
+                ⟨"br_table", [A (.int 0), A (.id "out")]⟩, ⟨"end", []⟩]⟩]
+    start := some (.name "g")
+    data := [⟨none, 8, [104, 105, 0, 255]⟩]
+    elems := [⟨0, [.name "g", .num 0]⟩] }
+
+example : sampleModule.WF := by
+  intro f hf
+  simp [sampleModule] at hf
+  subst hf
+  intro i hi
+  simp at hi
+  rcases hi with rfl | rfl | rfl | rfl | rfl | rfl <;> intro a ha <;> simp at ha <;>
+    (try rcases ha with rfl | rfl | rfl) <;> (try subst ha) <;> rfl
+
+example : parse (print sampleModule) = some sampleModule := parse_print _ (by
+  intro f hf
+  simp [sampleModule] at hf
+  subst hf
+  intro i hi
+  simp at hi
+  rcases hi with rfl | rfl | rfl | rfl | rfl | rfl <;> intro a ha <;> simp at ha <;>
+    (try rcases ha with rfl | rfl | rfl) <;> (try subst ha) <;> rfl)
 
 end WaVerif.C05
